@@ -186,6 +186,7 @@ func c08Until(f func() bool) bool {
 // ---- action specs (state independent, so that rapid can delete actions when shrinking)
 
 type c08Action struct {
+	BehindWriter bool // Kind 2: begin while a writer of the backend's RW lock is waiting behind an in-flight write
 	Kind  int // 0 start put, 1 start delete, 2 begin, 3 tx get, 4 tx put, 5 tx delete, 6 tx list, 7 start commit, 8 release one batch, 9 quiesce, 10 rollback, 11 use finished txn, 12 next step of a transaction's script, 13 burst (group commit: several entries in one FSM batch)
 	Key   int
 	Val   int
@@ -238,6 +239,7 @@ func c08ActionGen() *rapid.Generator[c08Action] {
 				a.Script = append(a.Script, c08Action{Kind: 4, Key: rapid.IntRange(0, len(c08Keys)-1).Draw(t, "key"), Val: rapid.IntRange(0, len(c08Values)-1).Draw(t, "val")})
 			}
 			a.EndRollback = rapid.IntRange(0, 9).Draw(t, "endRollback") == 9
+			a.BehindWriter = rapid.IntRange(0, 3).Draw(t, "beginBehindLockWriter") == 0
 		case 3, 4, 5:
 			a.Slot = rapid.IntRange(0, 2).Draw(t, "slot")
 			a.Key = rapid.IntRange(0, len(c08Keys)-1).Draw(t, "key")
@@ -453,6 +455,7 @@ func c08AlwaysVerify(ld *LogData, s c08State) (bool, string) {
 // ---- one case
 
 type c08Run struct {
+	behindWriter int // transactions begun behind a pending writer of the backend's lock
 	rt           *rapid.T
 	env          *c08Env
 	b            *RaftBackend
@@ -474,6 +477,12 @@ type c08Run struct {
 type c08Batch struct {
 	Lo, Hi uint64
 	N      int
+}
+
+// fsmIndex is RaftBackend.AppliedIndex without the backend's lock (a pending writer of that lock must not stall the harness).
+func (r *c08Run) fsmIndex() uint64 {
+	i, _ := r.b.fsm.LatestState()
+	return i.Index
 }
 
 func (r *c08Run) tracef(format string, a ...any) {
@@ -521,7 +530,7 @@ func (r *c08Run) startLogged(op *c08Op, f func() error) bool {
 
 // settle pops every pending op the FSM has applied and joins its goroutine.
 func (r *c08Run) settle() (popped int, ok bool) {
-	fi := r.b.AppliedIndex()
+	fi := r.fsmIndex()
 	for len(r.pending) > 0 && r.pending[0].Index <= fi {
 		popped++
 		op := r.pending[0]
@@ -546,20 +555,20 @@ func (r *c08Run) releaseOne() bool {
 		return true
 	}
 	target := r.pending[0].Index
-	lo := r.b.AppliedIndex()
-	if !c08Until(func() bool { return r.env.gate.parked.Load() > 0 || r.b.AppliedIndex() >= target }) {
+	lo := r.fsmIndex()
+	if !c08Until(func() bool { return r.env.gate.parked.Load() > 0 || r.fsmIndex() >= target }) {
 		r.failed = "timeout waiting for the FSM to reach the gate"
 		return false
 	}
-	if r.b.AppliedIndex() < target {
+	if r.fsmIndex() < target {
 		r.env.gate.tokens <- struct{}{}
 	}
-	if !c08Until(func() bool { return r.b.AppliedIndex() >= target }) {
+	if !c08Until(func() bool { return r.fsmIndex() >= target }) {
 		r.failed = fmt.Sprintf("timeout waiting for the FSM to apply @%d", target)
 		return false
 	}
 	n, ok := r.settle()
-	r.batches = append(r.batches, c08Batch{Lo: lo, Hi: r.b.AppliedIndex(), N: n})
+	r.batches = append(r.batches, c08Batch{Lo: lo, Hi: r.fsmIndex(), N: n})
 	return ok
 }
 
@@ -988,10 +997,52 @@ func c08RunCase(rt *rapid.T, rec *verifx.Recorder, env *c08Env, judge func(r *c0
 				nt := &c08Txn{ID: len(r.txns), RO: a.RO, overlay: map[string]*string{}, Script: a.Script, EndRollback: a.EndRollback}
 				nt.RaftApplied = b.raft.AppliedIndex()
 				var err error
-				if a.RO {
-					nt.tx, err = b.BeginReadOnlyTx(ctx)
+				begin := func() {
+					if a.RO {
+						nt.tx, err = b.BeginReadOnlyTx(ctx)
+					} else {
+						nt.tx, err = b.BeginTx(ctx)
+					}
+				}
+				if a.BehindWriter && len(r.pending) > 0 && !caughtUpOnly {
+					// A writer of the backend's RW lock (in production: SetupCluster, TeardownCluster, a suffrage change)
+					// queues up behind the in-flight writes, whose callers hold the lock for reading until the FSM has
+					// applied them; BeginTx starts meanwhile and stalls wherever it needs that lock; then the FSM applies the
+					// write, its caller returns, the writer gets and drops the lock, BeginTx goes on. Whatever BeginTx had
+					// done before it stalled is now one applied entry old.
+					lockDone, beginDone := make(chan struct{}), make(chan struct{})
+					go func() { b.l.Lock(); b.l.Unlock(); close(lockDone) }() //nolint:staticcheck
+					c08Spin(1500 * time.Microsecond)
+					go func() { begin(); close(beginDone) }()
+					c08Spin(1500 * time.Microsecond)
+					// the writer waits for every in-flight write (each caller holds the lock for reading): let the FSM
+					// apply batch after batch until the writer and BeginTx have both come back
+					isDone := func(ch chan struct{}) bool {
+						select {
+						case <-ch:
+							return true
+						default:
+							return false
+						}
+					}
+					deadline := time.Now().Add(c08Wait)
+					for released := false; !released || !isDone(beginDone) || !isDone(lockDone); released = true {
+						if len(r.pending) > 0 {
+							if !r.releaseOne() {
+								return false
+							}
+							continue
+						}
+						if time.Now().After(deadline) {
+							n := runtime.Stack(c08StackBuf, true)
+							r.failed = "timeout: BeginTx behind a pending lock writer did not return\n" + string(c08StackBuf[:n])
+							return false
+						}
+						c08Spin(200 * time.Microsecond)
+					}
+					r.behindWriter++
 				} else {
-					nt.tx, err = b.BeginTx(ctx)
+					begin()
 				}
 				if err != nil {
 					rt.Fatalf("harness: BeginTx: %v", err)
@@ -1509,6 +1560,9 @@ func c08Judge(rt *rapid.T, rec *verifx.Recorder, r *c08Run, caseStart uint64, ca
 	rec.Case(fmt.Sprintf("caughtUpOnly=%v %s", caughtUpOnly, lagClass), nontrivial, digest, func() any { return render() })
 	if commitsSeen > 0 {
 		rec.Class("cases-with-commit", 1)
+	}
+	if r.behindWriter > 0 {
+		rec.Class("begin-behind-pending-lock-writer", int64(r.behindWriter))
 	}
 	multi := false
 	for _, bt := range r.batches {
